@@ -41,3 +41,16 @@ def configs_for(prop, tier):
     else:
         ids = p.get('thorough_cfgs') or (THOROUGH_SAN if p.get('san') else THOROUGH)
     return [_BY[i] for i in ids]
+
+MANIFEST_TEXT = {
+    'default': {
+        'text': 'The property is a predicate of the TLA+ specification (HighSpec, spec/FxContract*.tla). TLC (a) model-checks that the bit-precise '
+                'transcription of the code (LowSpec) refines it on every operand combination of a reduced-width instance of the machine, and (b) validates '
+                'traces of the real library - TLC-generated landmark/solved-boundary inputs, seeded random and dense sweeps, executed in several '
+                'compiler/optimisation/standard configurations rebuilt from /repo - event by event against the same predicate. Exhaustive for the model '
+                'at small width; boundary-directed and sampled for the 64-bit code.',
+        'note': 'Trusted: TLC 1.8 + BigInteger overrides for wide integers (self-tested against their TLA+ definitions), the driver recording what the '
+                'library returned, g++ 12 / clang++ 14 as the compilers users build with. Reduced-width results transfer to 64 bits only as the same spec text.',
+        'technique': 'TLA+ spec; TLC model checking (reduced width) + TLC trace validation of real-code executions',
+    },
+}
